@@ -63,7 +63,7 @@ FUZZ_IMPORTS = ['mwlib.parser.refine.uparser', 'mwlib.parser.refine.core', 'mwli
 
 def run_shard(ctx):
     _doc.warmup()
-    @ctx.settings(ctx.n(24000, 400000))
+    @ctx.settings(ctx.n(24000, 240000))
     @given(_doc.documents())
     def t(doc):
         ctx.announce(doc)
@@ -74,4 +74,4 @@ def run_shard(ctx):
         ctx.record(doc["lang"] + doc["src"], labels, nt, sample=dict(lang=doc["lang"], src=doc["src"][:600], words=len(doc["expected"])))
 
     ctx.run_given(t)
-    ctx.fuzz_campaign("", (0, 320000))
+    ctx.fuzz_campaign("", (0, 160000))
